@@ -13,6 +13,8 @@ Decided (structural facts of the generator functions):
              np.unique call that produced the stored subscripts, and filter subscripts and values with ONE nonzero index
   RNG        random draws come only from the global legacy stream np.random.<fn> (reproducible under np.random.seed);
              no default_rng / RandomState / time-derived seeds anywhere in pyttb
+  INTKIND    parse_shape (where every generator reads its `shape`) recognises integers by the same types for a scalar shape and for the
+             entries of a sequence (sibling tests of one function must agree: numpy integer sizes such as `idx.max() + 1`)
 Not decided: entry values themselves, identity action of teneye, density rounding.
 """
 from __future__ import annotations
@@ -330,15 +332,48 @@ def agg_drop(prog: Program, res: Result) -> None:
         res.bad("IX-agg", fi.short, desc, prog.loc(fi, nz[0]), f"np.nonzero({arg}) filters only {sorted(filtered)}")
 
 
+def int_kinds(prog: Program, res: Result) -> None:
+    """parse_shape is the one place where every generator reads its `shape` argument.  It tells integers by isinstance in two places: a
+    scalar shape (one mode) and the entries of a sequence.  The two tests must name the same types - an integer type that is accepted as an
+    entry but not as a scalar makes `gen(n)` fail (or be read as a sequence) for exactly the sizes computed with numpy (`idx.max() + 1`)."""
+    fi = prog.func("pyttb_utils.parse_shape")
+    by_subject: Dict[str, Tuple[ast.Call, set]] = {}
+    for c in ast.walk(fi.node):
+        if isinstance(c, ast.Call) and dotted(c.func) == "isinstance" and len(c.args) == 2:
+            ty = fi.resolve(c.args[1])
+            if isinstance(ty, ast.Name) and ty.id in getattr(fi.node, "_pv_module_consts", {}):
+                ty = fi.node._pv_module_consts[ty.id]
+            names = {(dotted(t) or "?").split(".")[-1] for t in (ty.elts if isinstance(ty, ast.Tuple) else [ty])}
+            if names & {"int", "integer", "Integral", "int64", "int32"}:
+                # tests of one subject are read together (isinstance(x, int) or isinstance(x, np.integer))
+                first, acc = by_subject.setdefault(ast.unparse(c.args[0]), (c, set()))
+                acc |= names
+    sets = [(c, frozenset(acc)) for c, acc in by_subject.values()]
+    desc = "scalar shapes and shape entries are recognised as integers by the same types"
+    if len(sets) < 2:
+        res.undecided("INTKIND", fi.short, desc, prog.loc(fi), f"integer type tests on {len(sets)} subjects (2 on the reviewed tree: the shape, its entries)")
+        return
+    ref = max((s_ for _c, s_ in sets), key=len)
+    odd = [(c, s_) for c, s_ in sets if s_ != ref]
+    if odd:
+        c, s_ = odd[0]
+        res.bad("INTKIND", fi.short, desc, prog.loc(fi, c),
+                f"`{ast.unparse(c.args[0])}` is tested against {sorted(s_)} while another value of the function is tested against {sorted(ref)}: a size of "
+                f"type {sorted(ref - s_)} is an integer in one place and not in the other")
+    else:
+        res.ok("INTKIND", fi.short, desc, prog.loc(fi, sets[0][0]), f"{len(sets)} subjects over {sorted(ref)}")
+
+
 def check(prog: Program, res: Result, tier: str) -> None:
     res.explanation = __doc__.split("\n\n", 1)[1]
     res.assumptions = ["a generator callable applied to a shape returns an array of that shape (documented contract of from_function)",
                        "np.unique(axis=0) returns pairwise distinct rows; prefix slicing keeps them distinct"]
-    res.floors = {"GEN-fill": 5, "GEN-uniq": 1, "GEN-cnt": 1, "DIAG": 5, "IX-agg": 3, "RNG": 8}
+    res.floors = {"GEN-fill": 5, "GEN-uniq": 1, "GEN-cnt": 1, "DIAG": 5, "IX-agg": 3, "RNG": 8, "INTKIND": 1}
     gen_fill(prog, res)
     gen_sparse(prog, res)
     diag(prog, res)
     ix_agg(prog, res)
     agg_every_path(prog, res)
     agg_drop(prog, res)
+    int_kinds(prog, res)
     rng_rule(prog, res)
